@@ -770,9 +770,23 @@ func (c *run) consumerPart(text []byte) {
 	}
 	prim := c.consume(&p.Dst, "dst", text, w)
 	c.judge(prim, w, wDef, clip(text))
+	// what was delivered belongs to the caller: later calls of the codec must not change it
+	savedText := append([]byte(nil), prim.text...)
+	savedRecs := cloneRecs(prim.recs)
+	if prim.err == nil && prim.panicMsg == "" {
+		other := []byte("zz,yy,xx\nww,vv,uu\ntt,ss,rr\nqq,pp,oo\n")
+		dPlan := dstPlan{Kind: dstBytes, SinkFailAt: -1, RecFailAt: -1, RFFailAt: -1, In: streamPlan{ErrAt: -1}}
+		po, perr2 := parseStd(other, o)
+		c.consume(&dPlan, "later-call", other, want{recs: dropFirst(po, o.Skip), err: perr2})
+		if !bytes.Equal(savedText, prim.text) || !sameRecords(savedRecs, prim.recs) {
+			c.env.Violate("C16/records-differ", join("dest", prim.kind, "changed-by-a-later-call"),
+				"what was delivered into the %s destination changed when the codec was used again: was %s, now %s", prim.kind, clip(savedText), clip(prim.text))
+		}
+	}
 	peerPlan := dstPlan{Kind: p.PeerDst, SinkFailAt: -1, RecFailAt: -1, RFFailAt: -1, In: streamPlan{ErrAt: -1}}
 	peer := c.consume(&peerPlan, "peer-dst", text, w)
 	c.judge(peer, w, wDef, clip(text))
+	prim.text, prim.recs = savedText, savedRecs
 	c.agree(prim, peer, clip(text))
 }
 
